@@ -401,6 +401,10 @@ func (n *nilAnalysis) nonNilFactIn(v ssa.Value, facts []core.CondFact) bool {
 // successFact: the companion result of call (error: == nil, bool: true) is
 // known to signal success at block `at`.
 func (n *nilAnalysis) successFact(call ssa.Value, at *ssa.BasicBlock) bool {
+	return n.successFactIn(call, factsWithCreation(at))
+}
+
+func (n *nilAnalysis) successFactIn(call ssa.Value, facts []core.CondFact) bool {
 	tup, ok := call.Type().(*types.Tuple)
 	if !ok || tup.Len() < 2 {
 		return false
@@ -409,7 +413,7 @@ func (n *nilAnalysis) successFact(call ssa.Value, at *ssa.BasicBlock) bool {
 	lt := tup.At(last).Type()
 	// (for a closure, the facts that held where it was created count too: the
 	// `if err != nil { return }` of the enclosing function precedes the closure)
-	for _, f := range factsWithCreation(at) {
+	for _, f := range facts {
 		if isErrorType(lt) {
 			b, ok := f.Cond.(*ssa.BinOp)
 			if !ok || (b.Op != token.EQL && b.Op != token.NEQ) {
@@ -669,6 +673,14 @@ func (n *nilAnalysis) evalEdge(e ssa.Value, pred, succ *ssa.BasicBlock, seen map
 	}
 	if n.nonNilFactIn(e, edgeFacts(pred, succ)) {
 		ev.kind = nkNever
+	}
+	// "nil only on failure", and the failure is excluded on this very edge (`if err != nil { return }` ends the block)
+	if ev.raw == nkWithFail && ev.kind != nkNever {
+		if ex, isEx := n.resolveAt(e).(*ssa.Extract); isEx {
+			if call, isCall := ex.Tuple.(*ssa.Call); isCall && n.successFactIn(call, edgeFacts(pred, succ)) {
+				ev.kind = nkNever
+			}
+		}
 	}
 	return ev
 }
